@@ -130,7 +130,7 @@ func Generate(t *rapid.T, scheduled bool, allowed []int) Scenario {
 	// thorough tier, free-running: now and then the handler the receiver sits in goes on for
 	// seconds after the causes were issued (a killed process is finalized when its callback
 	// returns - however long that takes - never while it is still executing)
-	if !scheduled && sc.State == StateInHandler && kit.Tier() == "thorough" && rapid.IntRange(0, 39).Draw(t, "long_hold") == 0 {
+	if !scheduled && sc.State == StateInHandler && kit.Tier() == "thorough" && rapid.IntRange(0, 149).Draw(t, "long_hold") == 0 {
 		sc.LongHoldMs = rapid.SampledFrom([]int{1500, 6500}).Draw(t, "hold_ms")
 		for i := range sc.Agents {
 			for j := range sc.Agents[i] {
